@@ -53,7 +53,7 @@ func runConstraints(rc *sim.RunCtx, prop string) {
 		return
 	}
 	defer w.Close()
-	cfg := SwarmCfg(t, "constraints", map[string]bool{"create": true, "change": true, "grow": true, "shrink": true, "delete": true, "reprio": true, "resubmit": true})
+	cfg := SwarmCfg(t, "constraints", map[string]bool{"create": true, "change": true, "grow": true, "shrink": true, "delete": true, "reprio": true, "resubmit": true, "orphan": true})
 	cfg.FormW = []int{4, 1, 0, 0}
 	cfg.InvalidPct = []int{0, 8, 20}[t.Choose(3)]
 	g := NewGen(t, si, cfg)
@@ -69,6 +69,15 @@ func runConstraints(rc *sim.RunCtx, prop string) {
 		tx := g.GenTx(m)
 		if tx == nil {
 			continue
+		}
+		// an orphan delete stands alone: combined with a regular delete of the other definers of a path the model
+		// cannot tell which value the device keeps
+		for _, is := range tx.Intents {
+			if is.Orphan {
+				tx.Intents = []IntentSpec{is}
+				rc.Probe("orphan-delete")
+				break
+			}
 		}
 		dry := false
 		if prop == "C03" {
